@@ -421,7 +421,19 @@ def replay_main(path):
 
 def main(argv):
     if argv[0] == "worker":
-        worker_main(argv[1], argv[2], int(argv[3]), int(argv[4]), int(argv[5]), argv[6])
+        cov = None
+        if os.environ.get("VERIF_COVERAGE_DIR"):
+            # diagnostic only (tools/coverage.sh): which optyx lines do the generated cases execute?
+            import coverage
+            cov = coverage.Coverage(data_file=os.path.join(os.environ["VERIF_COVERAGE_DIR"], f"cov.{argv[1]}.{argv[4]}"),
+                                    source=[os.path.join(os.environ.get("VERIF_REPO", "/repo"), "src", "optyx")], branch=True)
+            cov.start()
+        try:
+            worker_main(argv[1], argv[2], int(argv[3]), int(argv[4]), int(argv[5]), argv[6])
+        finally:
+            if cov is not None:
+                cov.stop()
+                cov.save()
         return 0
     if argv[0] == "run":
         return run_main(argv[1].upper(), argv[2])
